@@ -340,8 +340,9 @@ def idx(sel):
     return list(sel['list'])
 
 
-def apply_real(a, op):
-    """returns (array bound to the name afterwards, result of a pure operator or None)"""
+def apply_real(a, op, box=None):
+    """returns (array bound to the name afterwards, result of a pure operator or None);
+    `box` (a list) receives a RaggedArray operand, so that the caller can check it afterwards"""
     from enspara import ra
     k = op['k']
     if k == 'setElem':
@@ -381,6 +382,8 @@ def apply_real(a, op):
             res = ~a
         else:
             o = ra.RaggedArray([np.array(r) for r in op['o']]) if k in ('iop2', 'binop2') else op['c_']
+            if box is not None and k in ('iop2', 'binop2'):
+                box.append((o, snapshot(o)))
             if op.get('refl'):
                 res = OPS[op['f']](o, a)
             elif k in ('iop', 'iop2') and op['f'] in IOPS:
@@ -971,7 +974,8 @@ def run_history(st, ops_or_gen, rng=None, nsteps=None, kinds=None):
             with warnings.catch_warnings():
                 warnings.simplefilter('ignore')
                 with np.errstate(all='ignore'):
-                    a2, res = apply_real(a, op)
+                    box = []
+                    a2, res = apply_real(a, op, box)
             S.rerr = None
         except Exception as e:  # noqa
             S.rerr, a2, res = errclass(e), a, None
@@ -998,6 +1002,12 @@ def run_history(st, ops_or_gen, rng=None, nsteps=None, kinds=None):
                 S.extra.append('augmented arithmetic rebinding returned the same object')
             if snapshot(a) != before:
                 S.extra.append('a = a (+) b changed the old object')
+        if S.rerr is None and op['k'] in ('iop2', 'binop2'):
+            for o_, snap_ in box:
+                if snapshot(o_) != snap_:
+                    S.extra.append('operator changed its right operand')
+                if res is o_ or a2 is o_:
+                    S.extra.append('operator returned its right operand')
         if S.rerr is not None and snapshot(a) != before:
             S.extra.append('rejected operation changed the array')
         # the caller's construction data must never be written
@@ -1167,7 +1177,7 @@ def small_scope(thorough):
     if thorough:
         shapes += [[1], [3], [1, 1], [2, 1], [3, 1], [3, 3], [2, 2, 2], [1, 3, 2], [3, 3, 3], [2, 3, 2, 3]]
     ctors = ['nested', 'flat-np'] + (['lists', 'flat'] if thorough else [])
-    bnd = [None, -3, -1, 0, 1, 2, 4] if not thorough else [None, -4, -3, -2, -1, 0, 1, 2, 3, 4]
+    bnd = [None, -3, -1, 0, 1, 2, 4] if not thorough else [None, -4, -3, -1, 0, 1, 2, 3, 4]
     steps_ = [None, 2, -1] if not thorough else [None, 1, 2, -1, -2]
     slices = [[a, b, c] for a in bnd for b in bnd for c in steps_]
     for L in shapes:
@@ -1186,7 +1196,7 @@ def small_scope(thorough):
                     ops.append({'k': 'viewWrite', 'i': i, 'j': j, 'v': 7})
                 for m in (1, 2, 3):
                     ops.append({'k': 'setRow', 'i': i, 'v': list(range(1, m + 1)), 'arr': bool(m % 2)})
-                for s in slices[::3] if not thorough else slices:
+                for s in slices[::3] if not thorough else slices[::2]:
                     ops.append({'k': 'setIntSlice', 'i': i, 'sl': s, 'v': 7, 'vt': 'scalar'})
             sels = [{'slice': s} for s in (slices[::2] if not thorough else slices)] + \
                    [{'list': l, 'np': False} for l in ([0], [-1], [0, n - 1], [n - 1, 0])]
@@ -1211,7 +1221,9 @@ def small_scope(thorough):
                         ops.append({'k': 'setRows', 'sel': sel, 'v': v, 'form': form})
             csels = [{'slice': s} for s in slices] + [{'int': j} for j in range(-max(L) - 1, max(L) + 1)] + \
                     [{'list': [0, -1], 'np': True}]
-            rsels = [{'slice': s} for s in (slices[::5] if not thorough else slices[::2])] + [{'list': [0, -1], 'np': True}]
+            rsels = [{'slice': s} for s in (slices[::7] if not thorough else slices[::19])] + [{'list': [0, -1], 'np': True}]
+            if thorough and ctor in ('lists', 'flat'):
+                rsels = rsels[::4]
             for r in rsels:
                 for c in csels:
                     if 'list' in r and 'slice' not in c:
@@ -1315,7 +1327,7 @@ def run(ctx):
                 batch = []
     process(ctx, cfg, batch, tags=['scope'])
     # 2. random histories
-    nh = ctx.n(700, 12000)
+    nh = ctx.n(700, 8000)
     batch = []
     for _ in range(nh):
         st = gen_state(rng)
